@@ -23,6 +23,7 @@ obligation, never guessed.
 """
 import ast
 import json
+import os
 import subprocess
 import sys
 
@@ -334,22 +335,71 @@ def masses():
             % ';\n'.join('  (%s, %s%%float)' % (coq_str(e), h) for e, h in rows))
 
 
+FALLBACK = os.path.join(os.path.dirname(os.path.abspath(__file__)), 'gen_sampler_fallback.v.txt')
+MARK = '(*@piece %s *)\n'
+
+
+def load_fallback():
+    """the translation of the source the model was last validated against (committed), by piece"""
+    out = {}
+    if not os.path.exists(FALLBACK):
+        return out
+    text = open(FALLBACK).read()
+    parts = text.split('(*@piece ')
+    for part in parts[1:]:
+        name, body = part.split(' *)\n', 1)
+        out[name] = body
+    return out
+
+
 @gen.target('SamplerGen', ['cgsmiles/sample.py', 'cgsmiles/cgsmiles_utils.py'])
 def gen_sampler(trees):
+    """Every piece is translated from the CURRENT source.  A piece whose source left the supported
+    shapes is NOT guessed: `samplergen_current` becomes false, which breaks the theorems of C16/C17
+    (Example C1x_translation_current in the property files: a broken proof obligation), and the piece
+    is emitted from the committed fall-back translation ONLY so that the executable model and the
+    oracles still build and the search for a failing input can run against the changed code."""
     ts, tu = trees['cgsmiles/sample.py'], trees['cgsmiles/cgsmiles_utils.py']
+
+    def sig_check():
+        fn = py2v.find_function(tu, 'find_complementary_bonding_descriptor')
+        if [a.arg for a in fn.args.args] != ['bonding_descriptor', 'ellegible_descriptors']:
+            raise Unsupported('signature of find_complementary_bonding_descriptor changed')
+        return translate(tu, 'find_complementary_bonding_descriptor',
+                         {'bonding_descriptor': 'str', 'ellegible_descriptors': 'list[str]'}, 'list[str]',
+                         'find_complementary_bonding_descriptor')
+    pieces = [
+        ('find_complementary_bonding_descriptor', sig_check),
+        ('set_bond_order_defaults_list', lambda: translate(ts, '_set_bond_order_defaults', {'bonding': 'list[str]'},
+                                                           'list[str]', 'set_bond_order_defaults_list')),
+        ('set_bond_order_defaults_dict', lambda: translate(ts, '_set_bond_order_defaults', {'bonding': 'dict'}, 'dict',
+                                                           'set_bond_order_defaults_dict', poly=True)),
+        ('patch_key', lambda: key_patch(ts)),
+        ('select_weights', lambda: select_weights(ts)),
+        ('loop_guard', lambda: loop_guard(ts)),
+    ]
+    fb = None
+    stale = []
     out = 'From Coq Require Import Floats.PrimFloat.\nFrom CGV Require Import Sample.GenSupport.\n\n'
-    fn = py2v.find_function(tu, 'find_complementary_bonding_descriptor')
-    if [a.arg for a in fn.args.args] != ['bonding_descriptor', 'ellegible_descriptors']:
-        raise Unsupported('signature of find_complementary_bonding_descriptor changed')
-    out += translate(tu, 'find_complementary_bonding_descriptor',
-                     {'bonding_descriptor': 'str', 'ellegible_descriptors': 'list[str]'}, 'list[str]',
-                     'find_complementary_bonding_descriptor')
-    out += '\n' + translate(ts, '_set_bond_order_defaults', {'bonding': 'list[str]'}, 'list[str]',
-                            'set_bond_order_defaults_list')
-    out += '\n' + translate(ts, '_set_bond_order_defaults', {'bonding': 'dict'}, 'dict',
-                            'set_bond_order_defaults_dict', poly=True)
-    out += '\n' + key_patch(ts)
-    out += '\n' + select_weights(ts)
-    out += '\n' + loop_guard(ts)
-    out += '\n' + masses()
+    body = ''
+    for name, f in pieces:
+        try:
+            text = f()
+        except Unsupported as exc:
+            if fb is None:
+                fb = load_fallback()
+            if name not in fb:
+                raise
+            stale.append((name, str(exc)))
+            text = ('(* NOT TRANSLATED from the current source (%s): fall-back text, only to keep the\n'
+                    '   executable check alive; samplergen_current = false breaks the theorems *)\n%s'
+                    % (str(exc).replace('*)', '* )')[:300], fb[name]))
+        body += MARK % name + text + '\n'
+    out += body
+    out += ('(* true iff every piece above is the translation of the current source *)\n'
+            'Definition samplergen_current : bool := %s.\n\n' % ('false' if stale else 'true'))
+    out += masses()
+    if os.environ.get('GEN_SAMPLER_WRITE_FALLBACK') == '1' and not stale:
+        with open(FALLBACK, 'w') as fh:
+            fh.write(body)
     return out
